@@ -52,8 +52,10 @@ def serialize (fl : Nat) (pad : Nat) : WFrame → Nat × Bytes
   | .rstStream code => (fl, toBe32 code)
   | .settings ack ts push ms ws fs hs =>
     if ack then (addFlag fl Gen.c_FlagAck true, [])
+    -- built through the six setters: four of them mark their value as present
     else (fl, settingsEncode { tableSize := ts, enablePush := push, maxStreams := ms, windowSize := ws,
-                               frameSize := fs, headerSize := hs })
+                               frameSize := fs, headerSize := hs, hasTableSize := true, hasPush := true,
+                               hasMaxStreams := true, hasWindowSize := true })
   | .pushPromise h => (fl, h)
   | .ping ack d => (addFlag fl Gen.c_FlagAck ack, d)
   | .goAway last code dbg => (fl, toBe32 last ++ toBe32 code ++ dbg)
